@@ -1,7 +1,7 @@
 (* Props/C10.v — property C10 (lookup prefilters never change the result): the digest part.
    Only statements, each closed by `exact`, with Print Assumptions beneath. *)
 From Coq Require Import List NArith Bool.
-From RB Require Import Gen.Consts Model.Digest Proofs.DigestP.
+From RB Require Import Gen.Consts Model.Digest Proofs.DigestP Model.Prefilter Proofs.PrefilterP.
 Import ListNotations.
 Local Open Scope N_scope.
 
@@ -67,6 +67,41 @@ Theorem C10_may_have_sound : forall d o g,
   d_may_have d o = true.
 Proof. exact (d_may_have_sound digest_shifts). Qed.
 Print Assumptions C10_may_have_sound.
+
+(* the skip decision of apply_layout_table is transparent: for EVERY lookup interpreter whose lookups
+   (1) carry a digest that over-approximates their first-glyph coverage [C10_add*_sound above],
+   (2) leave a buffer unchanged when they cover none of its glyphs [prefilter on/off differential], and
+   (3) keep the context digest covering the buffer while they substitute [run-time monitor hook],
+   and every pause that does not ask for a refresh keeps the glyph set, applying the lookups with the
+   prefilter (context digest = buffer.digest() at the start and after a refreshing pause) gives the same
+   buffer as applying every planned lookup. *)
+Theorem C10_skip_transparent :
+  forall (lookup buf : Type) (apply : lookup -> buf -> buf) (ldig : lookup -> digest)
+         (track : lookup -> buf -> digest -> digest) (glyphs : buf -> list N) (cov : lookup -> N -> Prop),
+  (forall l, Sound digest_shifts (ldig l) (cov l)) ->
+  (forall l b, (forall g, In g (glyphs b) -> ~ cov l g) -> apply l b = b) ->
+  (forall l b d, Covers digest_shifts buf glyphs d b -> Covers digest_shifts buf glyphs (track l b d) (apply l b)) ->
+  forall ss b, Forall (stage_ok lookup buf glyphs) ss ->
+  run_filtered lookup buf apply ldig track (fun b => d_add_array digest_shifts (d_new digest_shifts) (glyphs b)) b ss
+  = run_plain lookup buf apply b ss.
+Proof. exact (run_transparent_digest digest_shifts). Qed.
+Print Assumptions C10_skip_transparent.
+
+(* the refresh condition is necessary: a pause that inserts a glyph without asking for a refresh makes a
+   later lookup on that glyph be skipped (toy interpreter) *)
+Theorem C10_stale_digest_refuted :
+  run_filtered (N * N) (list N) toy_apply toy_ldig toy_track toy_bdig [1]
+     [mkStage [] (Some bad_pause); mkStage [(1000, 7)] None]
+  <> run_plain (N * N) (list N) toy_apply [1] [mkStage [] (Some bad_pause); mkStage [(1000, 7)] None].
+Proof. exact stale_digest_changes_result. Qed.
+Print Assumptions C10_stale_digest_refuted.
+
+(* hypotheses (1)-(3) are satisfiable together (toy interpreter) *)
+Example C10_skip_hypotheses_satisfiable :
+  (forall l, Sound toy_shifts (toy_ldig l) (toy_cov l)) /\
+  (forall l b, (forall g, In g b -> ~ toy_cov l g) -> toy_apply l b = b) /\
+  (forall l b d, Covers toy_shifts (list N) (fun b => b) d b -> Covers toy_shifts (list N) (fun b => b) (toy_track l b d) (toy_apply l b)).
+Proof. exact toy_hyps. Qed.
 
 (* non-vacuity: a concrete digest built by add / add_range is Sound for its glyph set, and the
    range case exercises the cyclic wrap (bit positions 62,63,0,1 for shift 0) *)
